@@ -35,9 +35,9 @@ Print Assumptions C01_tuple_completion_slot_in_bounds.
 (* Completion inside a value fails only by running out of fuel: no step of the descent fails by itself - if no call
    fails with fuel n, none fails with fuel n+1 - for every constraint, expression, file content and cursor (the tuple slot
    lookup, the recovery of dropped text and every scan over elements, items, parts and arguments are total). *)
-Theorem C01_value_completion_fails_only_by_fuel : forall prefill file opens empties vals funcs parens cparens fname refs p n,
-  (forall c' e', value_cands prefill file opens empties vals funcs parens cparens fname refs p n c' e' <> None) ->
+Theorem C01_value_completion_fails_only_by_fuel : forall prefill file opens empties vals funcs parens cparens fname refs fns p n,
+  (forall c' e', value_cands prefill file opens empties vals funcs parens cparens fname refs fns p n c' e' <> None) ->
   (forall e', type_cands file opens empties cparens p n e' <> None) ->
-  forall c e, value_cands prefill file opens empties vals funcs parens cparens fname refs p (S n) c e <> None.
+  forall c e, value_cands prefill file opens empties vals funcs parens cparens fname refs fns p (S n) c e <> None.
 Proof. exact value_cands_no_internal_failure. Qed.
 Print Assumptions C01_value_completion_fails_only_by_fuel.
